@@ -1246,7 +1246,7 @@ func RunConcDisjoint(c *core.Ctx) {
 // collection must not outlive the DDL that invalidates it.
 func RunConcDDL(c *core.Ctx) {
 	r := c.R
-	backend := gen.Pick(r, []string{BBolt, BBolt, BadgerMem, BadgerDisk})
+	backend := gen.Pick(r, []string{BBolt, BBolt, BadgerMem, BadgerDisk, BadgerRaw, BadgerShip})
 	h, err := Open(c, backend, "")
 	if err != nil {
 		c.Violate("open-error", "opening %s failed: %v", backend, err)
@@ -1299,12 +1299,40 @@ func RunConcDDL(c *core.Ctx) {
 		}
 		return ""
 	}
-	h.MS.SetPerturb(mon.Perturb{On: true, Seed: r.U64(), Pct: gen.Pick(r, []int{30, 60}), AfterGetUs: gen.Pick(r, []int{200, 800, 2500})})
+	if h.MS != nil {
+		h.MS.SetPerturb(mon.Perturb{On: true, Seed: r.U64(), Pct: gen.Pick(r, []int{30, 60}), AfterGetUs: gen.Pick(r, []int{200, 800, 2500})})
+	}
 	var stop int32
 	var bad atomic.Value
 	var reads int64
 	var wg sync.WaitGroup
 	readers := r.Range(2, 5)
+	// half of the cases: a writer keeps inserting documents whose x lies below every bound the readers use (their
+	// answers do not change), so that on badger the DDL transaction and the inserts conflict: a refused DDL has no
+	// effect at all and is simply tried again
+	var inserted []map[string]any
+	var insMu sync.Mutex
+	var ddlConflicts int64
+	if r.Bool() {
+		wg.Add(1)
+		rr := r.Fork()
+		go func() {
+			defer wg.Done()
+			for i := 0; atomic.LoadInt32(&stop) == 0 && i < 400; i++ {
+				core.Tick()
+				m := map[string]any{"_id": rr.UUID(), "x": int64(-1 - i), "g": int64(9)}
+				err := Do(func() error { return h.DB.Insert(name, model.NewDoc(m)) })
+				if err == nil {
+					insMu.Lock()
+					inserted = append(inserted, m)
+					insMu.Unlock()
+				} else if !errors.Is(err, badger.ErrConflict) {
+					bad.CompareAndSwap(nil, fmt.Sprintf("Insert next to index DDL failed: %v", err))
+					return
+				}
+			}
+		}()
+	}
 	for i := 0; i < readers; i++ {
 		wg.Add(1)
 		rr := r.Fork()
@@ -1337,10 +1365,20 @@ func RunConcDDL(c *core.Ctx) {
 	for i := 0; i < cycles && ddlErr == ""; i++ {
 		core.Tick()
 		var err error
-		if indexed {
-			err = Do(func() error { return h.DB.DropIndex(name, "x") })
-		} else {
-			err = Do(func() error { return h.DB.CreateIndex(name, "x") })
+		for attempt := 0; attempt < 50; attempt++ {
+			if indexed {
+				err = Do(func() error { return h.DB.DropIndex(name, "x") })
+			} else {
+				err = Do(func() error { return h.DB.CreateIndex(name, "x") })
+			}
+			if !errors.Is(err, badger.ErrConflict) {
+				break
+			}
+			atomic.AddInt64(&ddlConflicts, 1)
+			runtime.Gosched()
+		}
+		if errors.Is(err, badger.ErrConflict) {
+			break // refused fifty times in a row: stop the DDL here, the index state is unchanged
 		}
 		if err != nil {
 			ddlErr = fmt.Sprintf("index DDL number %d (drop=%v) failed: %v", i, indexed, err)
@@ -1358,9 +1396,15 @@ func RunConcDDL(c *core.Ctx) {
 	}
 	atomic.StoreInt32(&stop, 1)
 	wg.Wait()
-	h.MS.SetPerturb(mon.Perturb{})
+	if h.MS != nil {
+		h.MS.SetPerturb(mon.Perturb{})
+	}
+	for _, m := range inserted {
+		mc.Docs[m["_id"].(string)] = m
+	}
 	c.Eval(int(reads))
 	c.Count("ddl_concurrent_reads", int(reads))
+	c.Count("ddl_refused_by_conflict", int(ddlConflicts))
 	if ddlErr != "" {
 		c.Violate("conc:ddl-error", "%s", ddlErr)
 		return
@@ -1507,4 +1551,116 @@ func RunConcOversized(c *core.Ctx) {
 	if !s.failed {
 		c.Cell("conc-oversized|%s|accepted=%v|duplicate-last=%v", backendClass(backend), insErr == nil, dup)
 	}
+}
+
+// RunConcRecency: one writer inserts (and deletes) single documents; the moment a call has returned, the writer
+// itself asks for the document by id and for the count - both must reflect it, whatever other goroutines are
+// reading at that moment (real-time order: an operation that starts after another one has returned sees it).
+// Several readers run overlapping FindAll queries all the time, so that a reader is always in flight.
+func RunConcRecency(c *core.Ctx) {
+	r := c.R
+	backend := gen.Pick(r, []string{BadgerMem, BadgerDisk, BadgerRaw, BadgerShip, BBolt, BBoltRaw})
+	h, err := Open(c, backend, "")
+	if err != nil {
+		c.Violate("open-error", "opening %s failed: %v", backend, err)
+		return
+	}
+	defer h.Destroy()
+	c.Backend = backend
+	const name = "r"
+	if err := h.DB.CreateCollection(name); err != nil {
+		c.Violate("setup", "%v", err)
+		return
+	}
+	if r.Bool() {
+		h.DB.CreateIndex(name, "x")
+	}
+	// a base load so that a reader's scan takes a while
+	base := make([]*document.Document, r.Range(50, 400))
+	for i := range base {
+		d := document.NewDocument()
+		d.Set("_id", r.UUID())
+		d.Set("x", int64(i))
+		base[i] = d
+	}
+	if err := h.DB.Insert(name, base...); err != nil {
+		c.Violate("setup", "%v", err)
+		return
+	}
+	var stop int32
+	var wg sync.WaitGroup
+	var readerErr atomic.Value
+	readers := r.Range(3, 8)
+	for i := 0; i < readers; i++ {
+		wg.Add(1)
+		go func() {
+			defer wg.Done()
+			for atomic.LoadInt32(&stop) == 0 {
+				core.Tick()
+				if _, err := h.DB.FindAll(query.NewQuery(name).Where(query.Field("x").GtEq(int64(0)))); err != nil {
+					readerErr.CompareAndSwap(nil, fmt.Sprintf("FindAll failed: %v", err))
+					return
+				}
+			}
+		}()
+	}
+	live := len(base)
+	writes := r.Range(150, 400)
+	var problem string
+	var lastID string
+	for i := 0; i < writes && problem == ""; i++ {
+		core.Tick()
+		if lastID != "" && r.P(30) {
+			if err := h.DB.DeleteById(name, lastID); err != nil {
+				problem = fmt.Sprintf("DeleteById failed: %v", err)
+				break
+			}
+			live--
+			d, err := h.DB.FindById(name, lastID)
+			if err != nil || d != nil {
+				problem = fmt.Sprintf("write %d: DeleteById(%s) had returned, yet FindById right after still finds the document (%v)", i, short(lastID), err)
+				break
+			}
+			lastID = ""
+		} else {
+			d := document.NewDocument()
+			id := r.UUID()
+			d.Set("_id", id)
+			d.Set("x", int64(1000+i))
+			if err := h.DB.Insert(name, d); err != nil {
+				problem = fmt.Sprintf("Insert failed: %v", err)
+				break
+			}
+			live++
+			lastID = id
+			got, err := h.DB.FindById(name, id)
+			if err != nil || got == nil {
+				problem = fmt.Sprintf("write %d: Insert(%s) had returned, yet FindById right after does not find the document (%v)", i, short(id), err)
+				break
+			}
+		}
+		n, err := h.DB.Count(query.NewQuery(name))
+		if err != nil || n != live {
+			problem = fmt.Sprintf("write %d: after the call returned Count says %d (%v), %d documents are live (this goroutine is the only writer)", i, n, err, live)
+			break
+		}
+		if r.P(20) {
+			n2, err := h.DB.Count(query.NewQuery(name).Where(query.Field("x").GtEq(int64(0))))
+			if err != nil || n2 != live {
+				problem = fmt.Sprintf("write %d: after the call returned Count(x >= 0) says %d (%v), %d documents are live", i, n2, err, live)
+				break
+			}
+		}
+		c.Eval(2)
+	}
+	atomic.StoreInt32(&stop, 1)
+	wg.Wait()
+	if v := readerErr.Load(); v != nil && problem == "" {
+		problem = v.(string)
+	}
+	if problem != "" {
+		c.Violate("conc:stale-read-after-return", "%s (%s, %d overlapping readers)", problem, backend, readers)
+		return
+	}
+	c.Cell("conc-recency|%s|readers%d", backendClass(backend), readers)
 }
